@@ -1,5 +1,5 @@
 """One function per property: which TLC runs, which replays, which traces."""
-import json, os, random
+import json, os, random, time
 import vlib
 from vlib import cfg_text, q, tlc, expect_holds, expect_witness, vh_replay, vh_trace, validate_trace, Check, ToolError, log
 
@@ -160,11 +160,12 @@ def engine_run(c, name, menu, lines="Lines3", maxlines=3, maxfiles=2, joinsets="
         c.add_tlc(r)
     if r.replays == 0:
         raise ToolError("TLC produced no behaviours to replay for " + name)
+    t_r = time.time()
     rep = vh_replay("engine", r.replay_path, "engine-" + name, env_extra={"TZ": "UTC"})
     c.add_report(rep, ENGINE_WHAT)
     c.extra.setdefault("configs", []).append({"name": name, "menu": menu, "lines": lines, "max_lines": maxlines, "max_files": maxfiles,
                                               "modes": list(modes), "interrupts": intrs, "behaviours_replayed": rep.get("cases", 0),
-                                              "states": r.distinct})
+                                              "states": r.distinct, "tlc_s": round(r.wall, 1), "replay_s": round(time.time() - t_r, 1)})
     return rep
 
 
@@ -325,6 +326,29 @@ def check_C06(tier):
     return c.finish()
 
 
+# =====================================================================================  the command-line driver (Cli.tla)
+CLI_WHAT = reg("sqlgrep process vs Cli.tla (replay)", "cli")
+CLI_INVS = ["TypeOK", "FilesInOrder", "MessageOrRecords", "HeaderOnce"]
+
+
+def cli_run(c, name, queries, defkinds, formats, maxargs, fileids=("fa", "fb", "fe", "missing"), sample=None):
+    """Cli.tla: TLC checks the process-level invariants on the model and emits every behaviour (argument vector, files, statement, flags);
+    each is one invocation of the real binary whose stdout lines and exit status must be the model's."""
+    exe = vlib.build_cli()
+    k = {"Dev": set(), "FileIds": {q(x) for x in fileids}, "MaxArgs": maxargs, "Queries": {q(x) for x in queries},
+         "DefKinds": {q(x) for x in defkinds}, "Formats": {q(x) for x in formats}}
+    r = tlc("MC_Cli", cfg_text(constants=k, invariants=CLI_INVS + ["Emit"]), "cli-" + name, workers=W, timeout=900)
+    expect_holds(r, "Cli " + name); c.add_tlc(r)
+    path, n = (r.replay_path, r.replays) if not sample or r.replays <= sample else sample_ndjson(r.replay_path, sample, "cli-" + name)
+    t0 = time.time()
+    rep = vh_replay("cli", path, "cli-" + name, env_extra={"VH_CLI": exe, "TZ": "UTC"})
+    c.add_report(rep, CLI_WHAT)
+    c.extra.setdefault("configs", []).append({"name": "cli-" + name, "queries": sorted(queries), "definitions": sorted(defkinds), "formats": sorted(formats), "max_args": maxargs,
+                                              "behaviours_generated": r.replays, "behaviours_replayed": rep.get("cases", 0), "states": r.distinct,
+                                              "tlc_s": round(r.wall, 1), "replay_s": round(time.time() - t0, 1)})
+    return rep
+
+
 # =====================================================================================  C12
 READER_DEVS = ["InvalidUtf8EndsFile"]
 
@@ -350,6 +374,8 @@ def check_C12(tier):
     engine_run(c, "files", "CoreLimitMenu", lines="Lines3", maxlines=4 if t else 3, maxfiles=3, tdefs=("plain",))
     # a joined file of 34 lines (with non-rows among them): every line of it must reach the join
     engine_run(c, "long-joined-file", "JoinMenu", lines="LinesJ", maxlines=2, maxfiles=1, joinsets="JoinSetsLong", tdefs=("plain",))
+    # the process itself: input files in command-line order, FROM t::'file' and --stdin replacing them, a file that cannot be opened, statistics
+    cli_run(c, "files", ["all", "count", "limit1", "from", "frommissing"], ["ok"], ["json"], 3 if t else 2, fileids=("fa", "fb", "fc", "fe", "missing") if t else ("fa", "fb", "fe", "missing"))
     laws_trace(c, 2 if t else 1, 300 if t else 100)
     c.rule = ("TLC enumerates every byte content up to MaxLen over {x, LF, CR, a byte that is not UTF-8, U+00E9} and every cut into 1..MaxFiles files; each case is written to real files "
               "(x also expanded to runs of 8191/8192/8193 bytes around the BufReader capacity for every 50th case) and read by FileExecutor (SELECT x, COUNT(*), total_lines) and by the join loader. "
@@ -380,6 +406,8 @@ def check_C17(tier):
         expect_holds(r, "Printer (two columns)"); c.add_tlc(r)
         rep = vh_replay("printer", r.replay_path, "printer-two", env_extra={"TZ": "UTC"})
         c.add_report(rep, "OutputPrinter vs Printer.tla (replay)")
+    # the records as the process prints them on stdout in every --format (header once, one record per line, statistics line last)
+    cli_run(c, "formats", ["all", "count", "second", "limit1"], ["ok", "two"], ["text", "json", "csv"], 2, sample=None if t else 1500)
     # end to end: rows produced by the engine and printed by FileExecutor as JSON (Engine.tla replays decode every record)
     engine_run(c, "print-e2e", "SelectMenu", lines="Lines3", maxlines=2, maxfiles=1, tdefs=("plain",))
     c.rule = ("TLC enumerates sequences of print() calls (0-3 rows x 1-2 columns, single / multi) x the three formats over a boundary value universe "
@@ -508,6 +536,8 @@ def check_C14(tier):
         expect_holds(r, "ParseTotal " + name); c.add_tlc(r)
         rep = vh_replay("parsetotal", r.replay_path, "parsetotal-" + name)
         c.add_report(rep, reg("parser totality vs ParseTotal.tla", "parsetotal"))
+    # the process: a statement / definition file that does not parse gives one located message (exit status 1 only for the definition file), no crash
+    cli_run(c, "messages", ["parsebad", "create", "all", "notable"], ["ok", "bad", "none"], ["text"], 1)
     trace_check(c, "parse", "Trace_Parse", 20000 if t else 5000, "parse", "random Unicode / mutated statements", rounds=2 if t else 1)
     c.rule = ("TLC generates: every valid base statement with one (thorough: two) lexeme deleted / duplicated / swapped and every character prefix; all token soups of <= 2 (thorough 3) tokens over a "
               "51-token vocabulary; 24 malformed-but-plausible statements that must be errors; nesting of ( [ CASE up to depth 64. The harness parses each (parse and parse_into_tree) under "
@@ -597,6 +627,9 @@ def check_C09(tier):
     r = tlc("MC_Extract", cfg_text(constants={"Dev": set(), "CaseSets": {q("ts"), q("jsonleaf")}}, invariants=["Emit"]), "extract-c09", workers=W)
     expect_holds(r, "Extract (C09)"); c.add_tlc(r)
     c.add_report(vh_replay("extract", r.replay_path, "extract-c09", env_extra={"TZ": "UTC"}), "TableDefinition::extract (regex / split) vs Extract.tla")
+    # every kind of invocation of the process ends with the modelled exit status and output: no panic, no signal
+    cli_run(c, "total", ["all", "count", "limit1", "from", "frommissing", "parsebad", "notable", "create", "second"], ["ok", "bad", "two", "none"], ["text", "json", "csv"], 1,
+            sample=None if t else 800)
     # arbitrary bytes through the executor in three formats; the CLI in child processes under TZs with DST gaps / overlaps
     trace_check(c, "total", "Trace_Total", 2500 if t else 600, "total", "byte soups and TZ runs (outcome classes)", rounds=3 if t else 1,
                 env={"VH_CLI": vlib.build_cli()})
